@@ -14,13 +14,13 @@ import (
 
 type Pt struct{ X, Y float64 }
 
-func (a Pt) Sub(b Pt) Pt          { return Pt{a.X - b.X, a.Y - b.Y} }
-func (a Pt) Add(b Pt) Pt          { return Pt{a.X + b.X, a.Y + b.Y} }
-func (a Pt) Mul(k float64) Pt     { return Pt{a.X * k, a.Y * k} }
-func (a Pt) Len() float64         { return math.Hypot(a.X, a.Y) }
-func Dist(a, b Pt) float64        { return math.Hypot(a.X-b.X, a.Y-b.Y) }
-func cross(a, b Pt) float64       { return a.X*b.Y - a.Y*b.X }
-func lerp(a, b Pt, t float64) Pt  { return Pt{a.X + (b.X-a.X)*t, a.Y + (b.Y-a.Y)*t} }
+func (a Pt) Sub(b Pt) Pt         { return Pt{a.X - b.X, a.Y - b.Y} }
+func (a Pt) Add(b Pt) Pt         { return Pt{a.X + b.X, a.Y + b.Y} }
+func (a Pt) Mul(k float64) Pt    { return Pt{a.X * k, a.Y * k} }
+func (a Pt) Len() float64        { return math.Hypot(a.X, a.Y) }
+func Dist(a, b Pt) float64       { return math.Hypot(a.X-b.X, a.Y-b.Y) }
+func cross(a, b Pt) float64      { return a.X*b.Y - a.Y*b.X }
+func lerp(a, b Pt, t float64) Pt { return Pt{a.X + (b.X-a.X)*t, a.Y + (b.Y-a.Y)*t} }
 func finite(v ...float64) bool {
 	for _, x := range v {
 		if math.IsNaN(x) || math.IsInf(x, 0) {
@@ -128,7 +128,7 @@ func FlattenPath(d string, tol float64) ([]Poly, error) {
 	var out []Poly
 	var cur *Poly
 	var pos, start Pt
-	var lastCtl Pt   // last control point, for S/T reflection
+	var lastCtl Pt    // last control point, for S/T reflection
 	var lastKind byte // 'C' after C/S, 'Q' after Q/T, 0 otherwise
 	flush := func() {
 		if cur != nil && len(cur.Pts) > 0 {
